@@ -2,7 +2,9 @@
 (***************************************************************************)
 (* Trace specification: consumes ndjson events recorded from the real      *)
 (* crate (IOEnv.TRACE) and requires every event to be a step of the        *)
-(* specification.  One disjunct of the step per event kind.                *)
+(* specification.  One step operator per event kind (StepOf), each built    *)
+(* from the operators of the machines: S_* (FastQR), F_* (FileOps),       *)
+(* W_Apply / NativeOf (WasmOps), Apply / RegsAfter (Render).               *)
 (*                                                                         *)
 (* A trace action is always enabled: when the logged values are not what   *)
 (* the specification allows it prints a DIAG line naming the property,     *)
@@ -17,7 +19,9 @@ Rec == ndJsonDeserialize(IOEnv.TRACE)
 
 VARIABLES l,      \* next line of the trace
           lay,    \* Layout of the version last seen (computed once per run of equal versions)
-          st      \* trace state: [grp, U] unmasked symbol of the current same-payload group (C08)
+          st      \* trace state: grp = current group / history; U = unmasked symbol of the same-payload group (C08);
+                  \* pens = candidate penalties of the group (C11 fallback); regs = registers of the builders of the
+                  \* current history, memo = (registers -> result) of every build so far, rmemo = render hashes (C14)
 vars == <<l, lay, st>>
 
 Diag(k, rec, prop, why) == PrintT(<<"DIAG", ToJson([line |-> k, id |-> rec.id, tag |-> rec.tag, property |-> prop, why |-> why])>>) /\ TLCSet(1, TLCGet(1) + 1)
